@@ -341,6 +341,7 @@ PROPS = {
     },
     "C05": {
         "module": "ZenonVerif.Props.C05",
+        "extra_modules": ["ZenonVerif.Props.C05Store"],
         "streams": [S("election", 2000, 40000), S("ticker", 4000, 400000), S("mverify", 40, 300), S("contract", 8, 120)],
         "rule": "election stream: delegation sets of 1..60 pillars (names: numbered / case variants / prefixes of one "
                 "another / arbitrary bytes / realistic; weights: all equal / all zero / few values / ZNN amounts / >64 bit "
@@ -597,7 +598,8 @@ PROPS = {
     },
     "C11": {
         "module": "ZenonVerif.Props.C11",
-        "extra_modules": ["ZenonVerif.Props.C11Node", "ZenonVerif.Props.C11NodeGen", "ZenonVerif.Props.C11Points"],
+        "extra_modules": ["ZenonVerif.Props.C11Node", "ZenonVerif.Props.C11NodeGen", "ZenonVerif.Props.C11Points",
+                          "ZenonVerif.Props.C05Store"],
         "streams": [S("rewards-pure", 20000, 300000), S("rewards-node", 12, 150, timeout=14400)],
         "rule": "rewards-node stream: one evaluation = one line: an Update call received by the pillar / stake / sentinel / "
                 "liquidity contract of a real node (outcome, new LastEpochUpdate cursor, number of epochs issued), one "
